@@ -87,6 +87,11 @@ for key, dfn, op, opi, meth, doc in ARITH:
           clause=("%s: for a number x and the signed-byte immediate y the destination slot receives exactly %s" % (opi, doc)) + GENI % (":" + meth),
           mutants=arith_imm_mutants(key, opi))
 
+# two-instruction variant of one arithmetic instruction: generic dispatch (which may raise) is entered with the frame committed
+U(id="vm.op.add.commit", entry="h_vo_arith", defines=["-DVO_ADD", "-DVO_TWO_STEP"], cbmc=FP, assumes=[A_GENERIC, "a NOOP is executed first so that the interpreter's pc differs from the frame's pc when the instruction starts"],
+  clause="JOP_ADD after another instruction: the frame's pc is committed to this instruction before generic dispatch (janet_binop_call, which may raise) - all arithmetic instructions share the macro",
+  mutants=[M("commit-dropped", "            stack[A] = wrap(x1 op x2);\\\n            vm_pcnext();\\\n        } else {\\\n            vm_commit();\\\n", "            stack[A] = wrap(x1 op x2);\\\n            vm_pcnext();\\\n        } else {\\\n", "committed before")])
+
 
 # ---------------------------------------------------------------- group 2: bitwise
 A_SHL = "signed left shift wraps to 32 bits (documented GCC/clang behaviour; ISO C leaves an overflowing signed << undefined): the signed-overflow check is therefore not enabled for the shift-left units"
@@ -187,9 +192,10 @@ U(id="vm.op.length", entry="h_vo_length", defines=["-DVO_LENGTH"], assumes=[A_AC
 
 # two-instruction variants: the frame must be committed before the call that may raise (error attribution: C02)
 for tag, dfn, anchor in [("length", "VO_LENGTH", "    VM_OP(JOP_LENGTH)\n    vm_commit();\n"), ("in", "VO_IN", "    VM_OP(JOP_IN)\n    vm_commit();\n"), ("get", "VO_GET", "    VM_OP(JOP_GET)\n    vm_commit();\n"),
-                         ("put", "VO_PUT", "    VM_OP(JOP_PUT)\n    vm_commit();\n")]:
-    U(id="vm.op.%s.commit" % tag, entry=("h_vo_get_like" if tag in ("in", "get", "next") else "h_vo_%s" % tag), defines=["-D" + dfn, "-DVO_TWO_STEP"], assumes=[A_ACC, "a NOOP is executed first so that the interpreter's pc differs from the frame's pc when the instruction starts"],
-      clause="JOP_%s after another instruction: the frame's pc is committed to this instruction before the data-access function (which may raise) is called - an error is attributed to the form that raised it" % tag.upper(),
+                         ("put", "VO_PUT", "    VM_OP(JOP_PUT)\n    vm_commit();\n"),
+                         ("getindex", "VO_GETINDEX", "    VM_OP(JOP_GET_INDEX)\n    vm_commit();\n"), ("putindex", "VO_PUTINDEX", "    VM_OP(JOP_PUT_INDEX)\n    vm_commit();\n")]:
+    U(id="vm.op.%s.commit" % tag, entry=("h_vo_get_like" if tag in ("in", "get", "next") else "h_vo_index" if tag in ("getindex", "putindex") else "h_vo_%s" % tag), defines=["-D" + dfn, "-DVO_TWO_STEP"], assumes=[A_ACC, "a NOOP is executed first so that the interpreter's pc differs from the frame's pc when the instruction starts"],
+      clause="%s after another instruction: the frame's pc is committed to this instruction before the data-access function (which may raise) is called - an error is attributed to the form that raised it" % ("JOP_" + {"getindex": "GET_INDEX", "putindex": "PUT_INDEX"}.get(tag, tag.upper())),
       mutants=[M("commit-dropped", anchor, anchor.replace("    vm_commit();\n", ""), "committed before")])
 
 # ---------------------------------------------------------------- group 5: moves, loads, jumps, typecheck, error, return
